@@ -257,7 +257,7 @@ CLAIMED["C18"] = dict(
     note=("Presentations are covered for account and web3 credentials of web3id (request -> prove_with_rng -> Presentation::verify, issuer-signed commitments, holder linking signatures) with perturbed context, public "
           "data, credential id / holder, statement, borrowed proofs and borrowed linking proofs. The V1 format (web3id::v1: account based and identity based credentials, context, request anchor, allowed kinds and issuers, "
           "requested statements, validity period, network) is bound through PresentationV1.tla: 3 526 scenarios with at most two deviations plus about 700 statement rows; the failure kind is compared only where "
-          "the specification says exactly one check fails. The verification audit record / audit anchor is not bound. An account credential id is not part of the V0 proof (the verifier looks commitments up by it)."),
+          "the specification says exactly one check fails. The audit record of every fourth verified exchange is checked for hash binding of (id, request, presentation) and for its CBOR / JSON / binary encodings. An account credential id is not part of the V0 proof (the verifier looks commitments up by it)."),
     ref="4 C18")
 
 NOT_YET = {
